@@ -1,0 +1,22 @@
+//go:build verif
+
+package resource
+
+// Exported aliases of unexported stream functions, compiled only with the `verif` build tag.
+// They let the verification harness in /verif drive the decision tables and the lossy-delivery
+// goroutine directly. Nothing here changes behaviour; without the tag this file is not compiled.
+
+// VerifInclude is (*CollectionChange).include.
+func VerifInclude(c *CollectionChange, includeFunc FilterFunc) (*CollectionChange, bool) {
+	return c.include(includeFunc)
+}
+
+// VerifMergeChanges is mergeChanges.
+func VerifMergeChanges(a, b CollectionChange) (CollectionChange, bool) {
+	return mergeChanges(a, b)
+}
+
+// VerifMergeCollectionExcess is mergeCollectionExcess.
+func VerifMergeCollectionExcess(in <-chan any) <-chan any {
+	return mergeCollectionExcess(in)
+}
